@@ -612,7 +612,8 @@ def main():
                   "orders: unpolarised space-like a_s^1..4 (eko N3LO approximations: all variation indices one at a time; thorough: all products per column; "
                   "FHMRUVV: variation tuples (v,..,v), v=0,1,2, thorough: mixed), time-like a_s^1..3, polarised a_s^1..3, QED grids up to (4,2)",
                   "tolerances: table TOL in harness/C25.py (listed in `assumptions`)"]
-    chk.out_of_claim = ["exact moments N=1 of gamma_ns,v where the code has a removable pole (as4.gnsv nf^2 part: documented in tests/; time-like as3.gamma_nsv: see finding)",
+    chk.out_of_claim = ["the exact moment N=1 of the eko N3LO approximation of gamma_ns,v (as4.gnsv nf^2 part has a non-physical pole at N=1, documented in tests/: evaluated at 1+1e-8); "
+                        "time-like NNLO gamma_ns,v is checked both at N=1+1e-8 and at exactly N=1 (case tl.as3.nsv.N1; ZeroDivisionError there was defect 6d98ac99)",
                         "accuracy of the parametrisations beyond the tolerance table; rounding of the float harmonic sums (read as the rationals they denote)",
                         "colour factors other than NC=3"]
     chk.stubs = ["QED cases: eko.constants.uplike_flavors(nf) -> symbol nu tied to nf by the disjunction of the physical configurations"]
